@@ -260,6 +260,11 @@ def gen_streams(kind, lo, hi, rng):
         base = KEEPALIVE + S.UPD_ROUTE + S.MSGS['RR'][0]
         for i in range(1, len(base)):
             yield base[:i]
+    elif kind == 'burst':
+        # thousands of small messages arriving in one read (a peer that was blocked and catches up)
+        for n_ in (1200, 3500):
+            yield KEEPALIVE * n_
+            yield (KEEPALIVE + S.UPD_EMPTY) * (n_ // 2) + S.UPD_ROUTE
     elif kind in ('pool', 'fuzzpool'):
         pool = POOL
         if kind == 'fuzzpool':
@@ -293,6 +298,7 @@ def plan(tier, seed):
         shards.append(dict(kind='lenb', lo=0, hi=0, states=[st], full=False, seed=seed, segs='few'))
     shards.append(dict(kind='marker', lo=0, hi=0, states=STATES, full=full, seed=seed, segs='all'))
     shards.append(dict(kind='trunc', lo=0, hi=0, states=['ESTABLISHED'], full=False, seed=seed, segs='few'))
+    shards.append(dict(kind='burst', lo=0, hi=0, states=['ESTABLISHED'], full=False, seed=seed, segs='few'))
     npool = 16
     per = 20 if not full else 150
     for i in range(npool):
